@@ -98,6 +98,10 @@ class Check:
 
     def add_result(self, r, func=None):
         ob = r.ob
+        if os.environ.get("PYVC_UPDATE_HINTS") == "1" and ob is not None and getattr(r, "stage", ""):
+            from . import discharge as _d
+            self.hints = getattr(self, "hints", {})
+            self.hints[_d.hint_key(ob)] = r.stage
         self.items.append(dict(key=stable_key(r.name, ob.note if ob else ""), name=r.name,
                                func=(ob.func if ob else func) or "", kind=(ob.kind if ob else "lemma"),
                                clause=(ob.note if ob else ""), status=r.status, backend=r.backend,
@@ -283,6 +287,14 @@ class Check:
         print("%s %s: %d/%d obligations discharged, %d violation(s), %d undecided, %d known finding(s), %.1fs -> exit %d"
               % (self.pid, self.tier, n_dis, n_ob, len(self.violations), len(undecided) + len(self.errors),
                  len(self.known_hits), time.time() - self.t0, exit_code))
+        if os.environ.get("PYVC_UPDATE_HINTS") == "1" and getattr(self, "hints", None):
+            from . import discharge as _d
+            try:
+                h = json.load(open(_d.HINTS_FILE))
+            except Exception:
+                h = {}
+            h.update(self.hints)
+            json.dump(h, open(_d.HINTS_FILE, "w"), indent=0, sort_keys=True)
         if os.environ.get("PYVC_UPDATE_BASELINE") == "1" and exit_code == 0:
             b = load_baseline()
             b[self.pid] = {it["key"]: "proved" for it in claimed if it["status"] == "proved"}
